@@ -1,5 +1,141 @@
 import NessaiVerif.Driver.Parse
-/- stub: replaced by the owner of this area (C05) -/
+import NessaiVerif.Driver.Quad
+import NessaiVerif.Model.Results
+import NessaiVerif.Gen.Results
+/-
+Line protocol of the C05 models (area token `res`).
+
+  res ns <pts:[int,..]> <cmd>;<cmd>;…
+      the standard sampler's bookkeeping at `K := Int` (log-likelihoods arrive as the order-preserving
+      integer code of their float64 bit pattern: the model only compares them)
+        c[<int>,..]                            one `consume_sample` with this candidate stream
+        loop:<maxIt|none>:<0|1>:[[<int>,..]:<0|1>,…]   one `nested_sampling_loop` (cap, test now, steps)
+      → ok it=<n> fin=<0|1> nlive=<n> nested=[L:it,..] live=none|[L:it,..] logLs=[none|L,..] ns=[..] births=[none|L|err,..]
+      → err=<index|shape|starved|scriptEnd>@<cmd index>
+  res ins <ws:[num,..]>
+      `_INSIntegralState` at `K := Rat` on the linear-domain weights `exp(logL+logW)`
+      → ok n=<N> Z=<dy> W=[<dy>,..] var=<dy> relvar=<dy>      (dyadics rounded as in the `quad` driver)
+      → err=empty
+  res tab <std|ins> <result|exposed> <iid:0|1> <hasFinal:0|1> <key>
+      the translated table entry, conditionals resolved under the configuration, as JSON
+      → ok <json> | err=nokey
+  res keys <std|ins> <result|exposed>   → [key,..]
+  res same <std|ins> <iid> <hasFinal> <result key> <exposed key>  → 1 | 0
+-/
 namespace NessaiVerif.Driver.Results
-def handle (_toks : List String) : String := "bad-op"
+open NessaiVerif NessaiVerif.Parse NessaiVerif.Results
+
+def showErr : Err → String
+  | .indexErr => "index"
+  | .shapeErr => "shape"
+  | .starved => "starved"
+  | .scriptEnd => "scriptEnd"
+
+def showPt (p : Pt Int) : String := s!"{p.logL}:{p.it}"
+
+def showNS (s : NS Int) : String :=
+  let births := s.births.map fun b =>
+    match b with
+    | none => "err"
+    | some none => "none"
+    | some (some x) => toString x
+  s!"ok it={s.iteration} fin={showBool s.finalised} nlive={s.nlive} nested={showList showPt s.nested} " ++
+  s!"live={showOpt (showList showPt) s.live} logLs={showList (showOpt toString) s.logLs} " ++
+  s!"ns={showList toString s.nliveSeen} births={showList id births}"
+
+/-- `[c,..]:b` -/
+def parseStep? (s : String) : Option (List Int × Bool) :=
+  match splitTop s ':' with
+  | [l, b] => do
+      let l ← parseList? parseInt? l
+      let b ← parseBool? b
+      some (l, b)
+  | _ => none
+
+inductive Cmd
+  | consume (stream : List Int)
+  | loop (maxIt : Option Nat) (below : Bool) (steps : List (List Int × Bool))
+
+def parseCmd? (s : String) : Option Cmd :=
+  if s.startsWith "c[" then (parseList? parseInt? (s.drop 1).toString).map Cmd.consume
+  else
+    match splitTop s ':' with
+    | ["loop", m, b, steps] => do
+        let m ← parseOpt? parseNat? m
+        let b ← parseBool? b
+        let steps ← parseList? parseStep? steps
+        some (Cmd.loop m b steps)
+    | _ => none
+
+def runCmds : NS Int → List Cmd → Nat → Except (Err × Nat) (NS Int)
+  | s, [], _ => .ok s
+  | s, c :: cs, i =>
+    let r := match c with
+      | .consume stream => consume s stream
+      | .loop m b steps => nestedSamplingLoop m s b steps
+    match r with
+    | .error e => .error (e, i)
+    | .ok s' => runCmds s' cs (i + 1)
+
+def jsonStr (s : String) : String :=
+  "\"" ++ String.join (s.toList.map fun c =>
+    if c == '"' then "\\\"" else if c == '\\' then "\\\\" else String.singleton c) ++ "\""
+
+def jsonE : E → String
+  | .root => "[\"root\"]"
+  | .none => "[\"none\"]"
+  | .attr e n => s!"[\"attr\",{jsonE e},{jsonStr n}]"
+  | .app f e => s!"[\"app\",{jsonStr f},{jsonE e}]"
+  | .ite c t e => s!"[\"ite\",{jsonE c},{jsonE t},{jsonE e}]"
+  | .notNone e => s!"[\"notNone\",{jsonE e}]"
+  | .opaque s => s!"[\"opaque\",{jsonStr s}]"
+
+def table? (sampler which : String) : Option (List (String × E)) :=
+  match sampler, which with
+  | "std", "result" => some Gen.Results.stdResult
+  | "std", "exposed" => some Gen.Results.stdExposed
+  | "ins", "result" => some Gen.Results.insResult
+  | "ins", "exposed" => some Gen.Results.insExposed
+  | _, _ => none
+
+def handle (toks : List String) : String :=
+  match toks with
+  | ["ns", pts, cmds] =>
+    match parseList? parseInt? pts, (splitTop cmds ';').mapM parseCmd? with
+    | some pts, some cmds =>
+      match runCmds (populate pts) cmds 0 with
+      | .ok s => showNS s
+      | .error (e, i) => s!"err={showErr e}@{i}"
+    | _, _ => "bad-op"
+  | ["ns", pts] =>
+    match parseList? parseInt? pts with
+    | some pts => showNS (populate pts)
+    | none => "bad-op"
+  | ["ins", ws] =>
+    match parseList? Quad.parseNum? ws with
+    | some ws =>
+      if ws.isEmpty then "err=empty" else
+      s!"ok n={ws.length} Z={Quad.showDy (insZ ws)} W={showList Quad.showDy (insPostW ws)} " ++
+      s!"var={Quad.showDy (insVar ws)} relvar={Quad.showDy (insRelVar ws)}"
+    | none => "bad-op"
+  | ["tab", sampler, which, iid, fin, key] =>
+    match table? sampler which, parseBool? iid, parseBool? fin with
+    | some t, some iid, some fin =>
+      match lookup t key with
+      | some e => "ok " ++ jsonE (eval ⟨iid, fin⟩ e)
+      | none => "err=nokey"
+    | _, _, _ => "bad-op"
+  | ["keys", sampler, which] =>
+    match table? sampler which with
+    | some t => showList id (t.map (·.1))
+    | none => "bad-op"
+  | ["same", sampler, iid, fin, k1, k2] =>
+    match table? sampler "result", table? sampler "exposed", parseBool? iid, parseBool? fin with
+    | some r, some x, some iid, some fin =>
+      match lookup r k1, lookup x k2 with
+      | some a, some b => showBool (eval ⟨iid, fin⟩ a == eval ⟨iid, fin⟩ b && eval ⟨iid, fin⟩ a != E.none)
+      | _, _ => "err=nokey"
+    | _, _, _, _ => "bad-op"
+  | _ => "bad-op"
+
 end NessaiVerif.Driver.Results
